@@ -12,8 +12,9 @@
     accepted by [Wf.wf]: switch with a tag (integer expression; after an init statement a variable or
     literal; in each clause only the first case expression may be an operator expression) or without a
     tag (one condition per clause), optional init statement, default clause last, at least one clause,
-    NO fallthrough, break and continue inside clause bodies, any nesting -- that is the region where Y
-    agrees with G, minus fallthrough.
+    fallthrough (not in the last clause; without a tag not into an empty default clause, where yaegi crashes
+    while compiling), break and continue inside clause bodies, any nesting -- that is the region where Y
+    agrees with G.
     The deviations of yaegi on switch are the [C01_switch_*_refuted] theorems.
     The gap to the full property: functions, closures, composite data, range, goto, labels
     are covered by the behavioural streams of the harness only (compiled Go as the oracle). *)
@@ -27,7 +28,7 @@ Definition C01_statement : Prop :=
     Go's semantics -- normally or by a division by zero -- terminates under yaegi's CFG machine with
     the same printed output and the same ending.  [wf_program] is decidable; each of its clauses is
     the negation of a known-finding region (for-init-only, loop-empty-body, loopvar-assign); switch
-    statements are covered in the region described in the header (with or without a tag, default last, no fallthrough). *)
+    statements are covered in the region described in the header (with or without a tag, default last, fallthrough). *)
 Theorem C01_core_partial :
   forall p, wf_program p = true ->
   forall n out pk, GoSem.run n p = Done out pk -> exists m, Cfg.run m p = Done out pk.
@@ -77,8 +78,8 @@ Print Assumptions C01_loop_empty_body_refuted.
 (** Non-vacuity of [C01_core_partial] on switch: a well-formed program with a tagged and a tagless switch inside a loop. *)
 Theorem C01_switch_wf_inhabited :
   wf_program w_switch_wf = true /\
-  GoSem.run 1000 w_switch_wf = Done [70; 60; 64; 71; 61; 64; 70; 63; 64; 70; 60; 64]%Z false /\
-  Cfg.run 4000 w_switch_wf = Done [70; 60; 64; 71; 61; 64; 70; 63; 64; 70; 60; 64]%Z false.
+  GoSem.run 1000 w_switch_wf = Done [70; 71; 60; 64; 71; 61; 64; 70; 71; 63; 64; 70; 71; 60; 64]%Z false /\
+  Cfg.run 4000 w_switch_wf = Done [70; 71; 60; 64; 71; 61; 64; 70; 71; 63; 64; 70; 71; 60; 64]%Z false.
 Proof. exact switch_wf_inhabited. Qed.
 Print Assumptions C01_switch_wf_inhabited.
 
